@@ -108,11 +108,15 @@ int Fragment::SetPrefix(const char* new_prefix)
 {
   int ret = gd_alter_affixes(D->D, ind, new_prefix, suffix);
 
-  free(prefix);
-  free(suffix);
+  /* on failure nothing changed: keep the cached affixes (they used to be freed
+   * and left dangling) */
   if (!ret) {
+    free(prefix);
+    free(suffix);
     ns = gd_fragment_namespace(D->D, ind, NULL);
     ret = gd_fragment_affixes(D->D, ind, &prefix, &suffix);
+    if (ret < 0)
+      prefix = suffix = NULL;
   }
   return ret;
 }
@@ -121,9 +125,12 @@ int Fragment::SetSuffix(const char* new_suffix)
 {
   int ret = gd_alter_affixes(D->D, ind, prefix, new_suffix);
 
-  free(prefix);
-  free(suffix);
-  if (!ret)
+  if (!ret) {
+    free(prefix);
+    free(suffix);
     ret = gd_fragment_affixes(D->D, ind, &prefix, &suffix);
+    if (ret < 0)
+      prefix = suffix = NULL;
+  }
   return ret;
 }
